@@ -106,7 +106,9 @@ Definition cw_subspan (base cap off bits_at size_bits : nat) : option (nat * nat
 Definition cd_subspan (base cap off : nat) : nat * nat * nat :=
   let offset_bytes := off / 8 in
   let new_size := if offset_bytes <? cap / 8 then cap / 8 - offset_bytes else 0 in
-  (base + 8 * offset_bytes, 8 * new_size, off mod 8).
+  (* current source (/repo 939fc9d): the pointer advances by data_.size() - newSize = min(offset_bytes, size), so it never passes
+     one past the end of the data *)
+  (base + 8 * (cap / 8 - new_size), 8 * new_size, off mod 8).
 
 (* any_bitspan::subspan_bytes(size_bytes) (B 257-261) *)
 Definition cd_subspan_bytes (base cap off size_bytes : nat) : nat * nat * nat :=
